@@ -98,11 +98,12 @@ func c13bulk(c *wk.Ctx, i int, rng *rand.Rand) {
 	emitErr := ""
 	for k := 0; k < total && emitErr == ""; k++ {
 		// flow control: at most 20 events not yet received
-		for y := 0; k-int(atomic.LoadInt64(&received)) > 20 && y < 200000 && bad.Load() == nil; y++ {
+		y := 0
+		for ; k-int(atomic.LoadInt64(&received)) > 20 && y < 200000 && bad.Load() == nil; y++ {
 			time.Sleep(50 * time.Microsecond)
 		}
-		if bad.Load() != nil {
-			break
+		if bad.Load() != nil || y == 200000 {
+			break // the reader does not follow any more: quiescence decides below
 		}
 		if err := impl.Helper.SignalBulk(uint64(k), payload(k)); err != nil {
 			emitErr = err.Error()
@@ -111,10 +112,9 @@ func c13bulk(c *wk.Ctx, i int, rng *rand.Rand) {
 	caughtUp := func() bool {
 		return atomic.LoadInt64(&received) >= int64(total) || bad.Load() != nil
 	}
-	select {
-	case <-readerDone:
-	default:
-	}
+	// the churn goroutine never blocks: stop it before asking whether anything can still move
+	close(stop)
+	<-churnDone
 	v, _ := stuck.WaitFunc(func() bool {
 		select {
 		case <-readerDone:
@@ -123,8 +123,6 @@ func c13bulk(c *wk.Ctx, i int, rng *rand.Rand) {
 			return caughtUp()
 		}
 	}, &progress, 3*time.Minute)
-	close(stop)
-	<-churnDone
 	detail := map[string]interface{}{"transport": []string{"unix", "tcp"}[i%2], "events": total, "payload_bytes": size + 8, "received": atomic.LoadInt64(&received)}
 	if e, ok := bad.Load().(string); ok {
 		c.Viol("bulk", i, "event=wrong-payload-or-order/bulk", e, detail)
